@@ -18,4 +18,4 @@ run_one(){
   git -C /repo worktree remove --force $wt 2>/dev/null; rm -rf $wt /tmp/sm_ev_$sid
   h=$(python3 -c "import hashlib;print(hashlib.sha1('$wt'.encode()).hexdigest()[:10])"); rm -rf /verif/.build_$h
 }
-ls seeded | xargs -P $J -I{} sh -c '. /verif/tools/seedmatrix_fn.sh; run_one {}'
+ls seeded | grep -v '^_' | xargs -P $J -I{} sh -c '. /verif/tools/seedmatrix_fn.sh; run_one {}'
